@@ -276,6 +276,19 @@ class Plugin:
         tail = rng.choice([b"\xff", b"\xff\xfe", b"\xc3", b"0", b" 200 OK", b"/evil", b" ", b"x", b"\x00"])
         return list(data[:i] + tail + data[i:])
 
+    @staticmethod
+    def _hide_behind_cr(hs, rng):
+        """move one header behind a bare CR (or another line-break look-alike) inside the value of the header before it:
+        for the receiver that is ONE header with an illegal value (the datagram is dropped), never two headers"""
+        hs = [list(h) for h in hs]
+        if len(hs) < 2:
+            return hs
+        i = rng.randrange(1, len(hs))
+        name, value = hs.pop(i)
+        brk = rng.choice(["\r", "\r", "\r", "\x0b", "\x0c", "\x1c", "\x85", "\u2028"])
+        hs[i - 1][1] = hs[i - 1][1] + brk + name + ": " + value
+        return hs
+
     def _known_device_case(self, rng, n):
         """A device becomes known through a valid sighting; then related datagrams for the same USN arrive at the
         combined listener with one header removed, emptied or replaced (byebye without NT, alive with a LOCATION
@@ -323,6 +336,8 @@ class Plugin:
             ep = "EListenerSrch" if start.startswith("HTTP") else "EListenerAdv"
             if rng.random() < 0.1:
                 ep = rng.choice(["EListenerAdv", "EListenerSrch"])
+            if rng.random() < 0.1:
+                hs = self._hide_behind_cr(hs, rng)
             data = list(self._build(start, hs))
             if rng.random() < 0.12:
                 data = self._tail_first_line(data, rng)
@@ -364,6 +379,8 @@ class Plugin:
             if rng.random() < 0.6:
                 hs.append(["MX", rng.choice(MX_VALUES)])
             rng.shuffle(hs)
+            if rng.random() < 0.1:
+                hs = self._hide_behind_cr(hs, rng)
             data = list(self._build("M-SEARCH * HTTP/1.1", hs))
             if rng.random() < 0.12:
                 data = self._tail_first_line(data, rng)
@@ -386,6 +403,11 @@ class Plugin:
                 start, hs = rng.choice(SEEDS)
                 ep = {"N": ["EAdv", "EListenerAdv"], "M": ["EServer"], "H": ["ESearch", "EListenerSrch"]}[start[0]]
                 steps.append([rng.choice(ep), self._tail_first_line(self._build(start, hs), rng), rng.choice(ADDRS), t])
+                continue
+            if rng.random() < 0.08:
+                start, hs = rng.choice(SEEDS)
+                ep = {"N": ["EAdv", "EListenerAdv"], "M": ["EServer"], "H": ["ESearch", "EListenerSrch"]}[start[0]]
+                steps.append([rng.choice(ep), list(self._build(start, self._hide_behind_cr(hs, rng))), rng.choice(ADDRS), t])
                 continue
             steps.append([rng.choice(EPS + ["EListenerAdv", "EListenerSrch", "EServer"]), self._datagram(rng), rng.choice(ADDRS), t])
         return {"steps": steps}
